@@ -26,7 +26,7 @@ RULE = ("Base messages are produced in simulation by fixed scenarios: v1/v2c res
         "authenticated USM Report, and a v2c trap to a registered listener. For each base message the `corrupt`/`rewrite` "
         "network fault delivers, inside an otherwise normal exchange: EVERY single-bit flip, EVERY truncation, at EVERY TLV "
         "header position (tags and length octets, nested security parameters included, located by the independent decoder) "
-        "every one of the 256 octet values (thorough; a 13-value dictionary {00 01 7F 80 81 82 83 84 88 FF 04 30 A2} in "
+        "every one of the 256 octet values (thorough; a 16-value dictionary {00 01 7F 80 81 82 83 84 88 FF 04 30 A2 02 43 44} in "
         "quick), seeded pairs and triples of header positions with dictionary values, indefinite lengths with end-of-contents, "
         "seeded random strings of 0-2000 octets and some of 65507, constructed values nested up to the UDP maximum, and "
         "WELL-FORMED but unusually large variants of the message (up to 6 500 tiny bindings, one 60 000-octet string, error "
@@ -49,7 +49,7 @@ PROBES = ["flip", "trunc", "hsub", "hsub_multi", "eoc", "random", "random_max_si
           "report", "trap", "raised", "accepted_mutated", "recursion_error", "indefinite_no_eoc_reached", "timeout_path",
           "memory_measured", "big_wellformed", "big_over_50k_octets"]
 shrink_lists = [("mutations",)]
-DICT = [0x00, 0x01, 0x7F, 0x80, 0x81, 0x82, 0x83, 0x84, 0x88, 0xFF, 0x04, 0x30, 0xA2]
+DICT = [0x00, 0x01, 0x7F, 0x80, 0x81, 0x82, 0x83, 0x84, 0x88, 0xFF, 0x04, 0x30, 0xA2, 0x02, 0x43, 0x44]
 
 MIB = {(1, 3, 6, 1, 2, 1, 1, 1, 0): ("str", b"descr" * 4), (1, 3, 6, 1, 2, 1, 1, 2, 0): ("oid", (1, 3, 6, 1, 4, 1, 8072)),
        (1, 3, 6, 1, 2, 1, 1, 3, 0): ("tt", 12345), (1, 3, 6, 1, 2, 1, 2, 1, 0): ("int", 3)}
@@ -412,7 +412,7 @@ def exhaustive(tier: str) -> Optional[str]:
     names = QUICK_SCENARIOS if tier == "quick" else list(SCENARIOS)
     return ("for each of the %d base messages (%s): all single-bit flips, all truncations, all TLV header positions x %s; "
             "pairs/triples, random strings and nesting depths are seeded samples" % (
-                len(names), ", ".join(names), "13 dictionary octets" if tier == "quick" else "all 256 octet values"))
+                len(names), ", ".join(names), "16 dictionary octets" if tier == "quick" else "all 256 octet values"))
 
 
 def plan_for(tier: str, seed: int, i: int) -> dict:
